@@ -120,6 +120,22 @@ CLAIMED = {
         "wall-clock bound 20 s per small page; network helpers stubbed; Lua via offline stand-ins.",
         "DESIGN.md §5 C05, notes/C05b.md",
     ),
+    "C06": (
+        ["SandboxReach", "MC_SandboxReach", "Gen_SandboxReach"],
+        "TLA+ attacker model (set of held references, Next = follow an edge) instantiated on every run with the object graph extracted from the LIVE sandbox (tables, metatables, require() results, attributes of reachable Python objects per the attribute filter); "
+        "TLC computes reachability of forbidden capabilities; every TLC path is compiled to a Lua probe and executed through #invoke; an attack corpus is executed for real and must be covered by the model",
+        "Exhaustive reachability over the extracted live object graph (~1000 objects) and an every-order model check; real-code confirmation of every counterexample path; 56-module attack corpus with file-system/database snapshots.",
+        "object-capability model: VM-level exploits and C library internals trusted; call summaries for a fixed list of callables; offline stand-ins for ustring/libraryUtil.",
+        "DESIGN.md §5 C06, notes/C06.md",
+    ),
+    "C07": (
+        ["LuaTimeout", "MC_LuaTimeout", "Gen_LuaTimeout", "Trace_LuaTimeout"],
+        "TLA+ small-step machine of the count hook / deadline / protected-call stack / coroutines with liveness DeadlinePassed ~> Done under weak fairness, plus big-step Pred(body, wrapper, Dev); TLC enumerates the program grammar with predicted outcome classes; "
+        "every program rendered to Lua and run through expand(timeout=...) in child processes with a hard kill; event traces of running programs validated by a TLC trace spec; follow-up invocations compared with a fresh context",
+        "Model checking incl. liveness of the ideal design; bounded-exhaustive program grammar (wrapper depth 2 quick / 3 thorough) on the real sandbox; outcomes must match what the property demands unless explained by one of four listed findings.",
+        "os.time() granularity 1 s (limit 1 s => abort within 1-2 s); hard kill at limit + 6 s; four listed findings (pcall, coroutine, hook control, nested invoke); proposed fix kept in proposed_fixes/ (judged too large to apply blindly without the Lua test-suite).",
+        "DESIGN.md §5 C07, notes/C07.md",
+    ),
 }
 NOT_YET = "check not built yet in this round (see DESIGN.md §10 build order); nothing is claimed for it"
 
